@@ -11,7 +11,7 @@ from harness.engine import Result
 ID = "C13"
 LEVEL = "exploration"
 RULE = ("Hypothesis draws a history (<= 12 steps, <= 5 solves) over the alphabet minimize(i) / maximize(i) / "
-        "subject_to(j) / subject_to([j,k]) / set_lb(v,b) / set_ub(v,b) / solve(m) / read variables / read "
+        "subject_to(j) / subject_to([j,k]) / set_lb(v,b) / set_ub(v,b) / set the bound of one vector element / solve(m) / read variables / read "
         "n_variables / read get_bounds, over fixed pools of 9 objectives (linear, convex quadratic, smooth convex, "
         "negated ones for maximise, single-vector-only, fewer variables) and 10 constraints (linear <= >= ==, "
         "convex nonlinear, vector comparisons producing lists, an infeasible pair, one introducing a new "
@@ -50,18 +50,26 @@ def _sum(*ts):
     return r
 
 
-OBJECTIVES = [
+def _cyc(base, n):
+    return [base[i % len(base)] for i in range(n)]
+
+
+def objectives(n):
+    return [
     _sum(["bin", "*", _c(2), X], ["bin", "*", _c(3), Y], ["un", "neg", Z], ["vsum", V]),                         # 0 linear
     _sum(_sq(["bin", "-", X, _c(1)]), _sq(["bin", "+", Y, _c(2)]), _sq(Z), ["dotself", V, "dot"]),               # 1 convex quadratic
     _sum(["un", "exp", X], ["un", "exp", ["un", "neg", X]], _sq(Y), _sq(Z), ["vsum", ["vpow", V, 2]]),           # 2 smooth convex
     ["un", "neg", _sum(_sq(["bin", "-", X, _c(1)]), _sq(["bin", "-", Y, _c(1)]), _sq(Z), ["dotself", V, "dot"])],  # 3 concave
-    ["bin", "-", ["vsum", ["vpow", V, 2]], ["lincomb", [1, 2, -1], V, "c@x"]],                                    # 4 single vector only
+    ["bin", "-", ["vsum", ["vpow", V, 2]], ["lincomb", _cyc([1, 2, -1], n), V, "c@x"]],                           # 4 single vector only
     _sq(["bin", "-", X, _c(2)]),                                                                                   # 5 fewer variables
-    ["lincomb", [1, -2, 0.5], V, "c@x"],                                                                          # 6 linear in v
+    ["lincomb", _cyc([1, -2, 0.5], n), V, "c@x"],                                                                 # 6 linear in v
     ["un", "neg", _sum(["bin", "*", _c(2), X], Y)],                                                               # 7 negated linear
     _sum(_sq(["bin", "-", X, Y]), ["un", "cosh", Z], ["bin", "*", _c(0.5), ["dotself", V, "dot"]]),             # 8 smooth convex, coupled
-]
-CONSTRAINTS = [
+    ]
+
+
+def constraints(n):
+    return [
     ("scalar", _sum(X, Y), "<=", 4.0),
     ("scalar", ["bin", "-", X, Y], ">=", -1.0),
     ("scalar", _sum(X, Y, Z), "==", 1.0),
@@ -72,7 +80,13 @@ CONSTRAINTS = [
     ("scalar", X, "<=", 3.0),
     ("scalar", _sum(W, X), ">=", 1.0),
     ("scalar", ["vsum", V], "==", 3.0),
-]
+    # rows over the whole vector with float coefficients (with objectives 4 / 6 the vector is all there is)
+    ("scalar", ["lincomb", _cyc([1.0, 2.0, 3.0], n), V, "c@x"], ">=", 2.0),
+    ("scalar", ["lincomb", _cyc([1.0, 0.5, 2.0], n), V, "x@c"], "<=", 9.0),
+    ]
+
+
+OBJECTIVES, CONSTRAINTS = objectives(3), constraints(3)   # index ranges (the recipes are rebuilt per case for its vector size)
 METHODS = ["auto", "auto", "linprog", "SLSQP", "trust-constr", "L-BFGS-B"]
 CONVEX = [1, 2, 8]  # strictly convex in every variable they mention... (5 and 4 are convex but mention fewer variables)
 BOUNDS = [None, -2, 0, 1, 3, -4, 2, 5]
@@ -93,6 +107,7 @@ def histories(draw):
         steps.append([draw(st.sampled_from(["minimize", "maximize"])), draw(st.integers(0, len(OBJECTIVES) - 1))])
     for _ in range(draw(st.integers(2, 11))):
         k = draw(st.sampled_from(["minimize", "maximize", "flip", "flip", "subject_to", "subject_to", "subject_to_list", "set_lb", "set_ub",
+                                  "set_elem_lb", "set_elem_ub",
                                   "solve", "solve", "solve", "variables", "n_variables", "get_bounds"]))
         if k in ("minimize", "maximize"):
             steps.append([k, draw(st.integers(0, len(OBJECTIVES) - 1))])
@@ -104,6 +119,9 @@ def histories(draw):
             steps.append([k, draw(st.lists(st.integers(0, len(CONSTRAINTS) - 1), min_size=1, max_size=3))])
         elif k in ("set_lb", "set_ub"):
             steps.append([k, draw(st.sampled_from(VARS)), draw(st.sampled_from(BOUNDS))])
+        elif k in ("set_elem_lb", "set_elem_ub"):
+            # the bound of ONE element of the vector (index taken modulo the vector's size)
+            steps.append([k, draw(st.integers(0, 11)), draw(st.sampled_from(BOUNDS))])
         elif k == "solve":
             if nsolves >= 5:
                 continue
@@ -111,13 +129,28 @@ def histories(draw):
             steps.append([k, draw(st.sampled_from(METHODS))])
         else:
             steps.append([k])
+    if draw(st.integers(0, 2)) == 0 and not free_start:
+        # LP episodes: a whole-vector row, LP solve, an edit that forces re-extraction or only touches one element's
+        # bound, LP solve again (the transitions the LP cache has to survive)
+        m = draw(st.sampled_from(["auto", "linprog"]))
+        steps += [[draw(st.sampled_from(["minimize", "maximize"])), 6], ["subject_to", draw(st.sampled_from([10, 11]))], ["solve", m]]
+        for _ in range(draw(st.integers(1, 2))):
+            e = draw(st.sampled_from(["row", "elem", "elem", "vec"]))
+            if e == "row":
+                steps.append(["subject_to", draw(st.sampled_from([4, 5, 9, 10, 11]))])
+            elif e == "elem":
+                steps.append([draw(st.sampled_from(["set_elem_lb", "set_elem_ub"])), draw(st.integers(0, 11)), draw(st.sampled_from([-2, 0, 1, 3, 2, 5]))])
+            else:
+                steps.append([draw(st.sampled_from(["set_lb", "set_ub"])), "v", draw(st.sampled_from([-2, 0, 1, 3]))])
+            steps.append(["solve", m])
+        nsolves += 2
     if nsolves == 0:
         steps.append(["solve", draw(st.sampled_from(METHODS))])
     if free_start:
         # keep free-start histories bounded below: strictly convex objectives, minimised
         steps = [(["minimize", CONVEX[st_[1] % len(CONVEX)]] if st_[0] in ("minimize", "maximize") else st_) for st_ in steps
                  if st_[0] != "flip"]
-    return {"steps": steps, "free_start": free_start, "deep_algorithms": draw(st.integers(0, 5)) == 0}
+    return {"steps": steps, "free_start": free_start, "vn": draw(st.sampled_from([3, 3, 12])), "deep_algorithms": draw(st.integers(0, 5)) == 0}
 
 
 def strategy(tier):
@@ -129,13 +162,16 @@ def sample_repr(case):
 
 
 class State:
-    def __init__(self, free=False):
+    def __init__(self, free=False, n=3):
         self.obj, self.sense, self.cons = None, "minimize", []
+        self.n = n
+        self.OBJ, self.CON = objectives(n), constraints(n)
         self.bounds = {v: ([None, None] if free else [INIT_LB, INIT_UB]) for v in VARS}
+        self.elem = {}   # element index -> [lb, ub] set individually after declaration
 
     def env(self):
         e = {"scalars": [dict(name=s["name"], lb=self.bounds[s["name"]][0], ub=self.bounds[s["name"]][1]) for s in ENV["scalars"]],
-             "vectors": [dict(name="v", n=3, lb=self.bounds["v"][0], ub=self.bounds["v"][1])], "matrices": [], "params": [], "views": {}}
+             "vectors": [dict(name="v", n=self.n, lb=self.bounds["v"][0], ub=self.bounds["v"][1])], "matrices": [], "params": [], "views": {}}
         return e
 
 
@@ -148,11 +184,13 @@ def _make_con(b, spec):
 def _fresh(state):
     from optyx import Problem
     b = BuildAlg(state.env())
+    for i, (lb, ub) in state.elem.items():
+        b.vectors["v"][i].lb, b.vectors["v"][i].ub = lb, ub
     P = Problem()
     if state.obj is not None:
-        (P.minimize if state.sense == "minimize" else P.maximize)(b.ev(OBJECTIVES[state.obj]))
+        (P.minimize if state.sense == "minimize" else P.maximize)(b.ev(state.OBJ[state.obj]))
     for group in state.cons:
-        cs = [_make_con(b, CONSTRAINTS[j]) for j in group]
+        cs = [_make_con(b, state.CON[j]) for j in group]
         if len(group) == 1 and not isinstance(cs[0], list):
             P.subject_to(cs[0])
         else:
@@ -207,10 +245,13 @@ def check(case):
     from optyx import Problem
 
     classes = []
-    state = State(case.get("free_start", False))
+    vn = case.get("vn", 3)
+    state = State(case.get("free_start", False), vn)
+    OBJECTIVES, CONSTRAINTS = state.OBJ, state.CON
     classes.append("free-start" if case.get("free_start") else "boxed-start")
+    classes.append(f"vector-size:{vn}")
     with quiet():
-        b = BuildAlg(State(case.get("free_start", False)).env())
+        b = BuildAlg(State(case.get("free_start", False), vn).env())
         objs = {"x": b.scalars["x"], "y": b.scalars["y"], "z": b.scalars["z"], "w10": b.scalars["w10"], "v": b.vectors["v"]}
         P = Problem()
         solves, changed_between, last_solve_obs, edits_since = 0, False, None, []
@@ -253,6 +294,9 @@ def check(case):
                         continue
                     ub = val
                 state.bounds[name] = [lb, ub]
+                if name == "v":
+                    for i_ in list(state.elem):   # the whole-vector edit overrides that side of every element
+                        state.elem[i_] = [lb if k == "set_lb" else state.elem[i_][0], ub if k == "set_ub" else state.elem[i_][1]]
                 o = objs[name]
                 targets = list(o) if name == "v" else [o]
                 for t in targets:
@@ -260,6 +304,24 @@ def check(case):
                         t.lb = val
                     else:
                         t.ub = val
+                edits_since.append(k)
+            elif k in ("set_elem_lb", "set_elem_ub"):
+                i_, val = step[1] % vn, step[2]
+                lb, ub = state.elem.get(i_, list(state.bounds["v"]))
+                if k == "set_elem_lb":
+                    if val is not None and ub is not None and val > ub:
+                        continue
+                    lb = val
+                else:
+                    if val is not None and lb is not None and val < lb:
+                        continue
+                    ub = val
+                state.elem[i_] = [lb, ub]
+                t = objs["v"][i_]
+                if k == "set_elem_lb":
+                    t.lb = val
+                else:
+                    t.ub = val
                 edits_since.append(k)
             else:
                 arg = step[1] if k == "solve" else None
